@@ -129,6 +129,11 @@ func Max(a, b int) int {
 //	       been written through)
 //	fix 2: the root is filled through an alias root.Slice(0,K); the root header
 //	       itself is never written through; the window is sliced from it afterwards
+//	fix 4+s: as fix 0, but the window starts as the empty root.Slice(a,a) and gets
+//	       its content (the same values) in two pieces: s single samples, then an
+//	       in-place Append of a separately allocated buffer holding the rest, so
+//	       that both pieces may end in a partial frame (s is clipped to 1..n-1;
+//	       windows with fewer than two samples are built as fix 0)
 func RootWindow[T signal.SignalTypes](C, K, a, b, partial, fix int) (root, w *signal.Buffer[T]) {
 	root = signal.Alloc[T](signal.Allocator{Channels: C, Length: K, Capacity: K})
 	fillVia := root
@@ -140,6 +145,28 @@ func RootWindow[T signal.SignalTypes](C, K, a, b, partial, fix int) (root, w *si
 	}
 	for p := 0; p < C*K; p++ {
 		fillVia.SetSample(p, T(Sentinel(p)))
+	}
+	if n := C*(b-a) + partial; fix >= 4 && n >= 2 {
+		n1 := fix - 3
+		if n1 > n-1 {
+			n1 = n - 1
+		}
+		val := func(q int) T {
+			if q < C*(b-a) {
+				return T(Sentinel(C*a + q))
+			}
+			return T(PartialVal(q - C*(b-a)))
+		}
+		w = root.Slice(a, a)
+		for q := 0; q < n1; q++ {
+			w.AppendSample(val(q))
+		}
+		rest := signal.Alloc[T](signal.Allocator{Channels: C, Length: 0, Capacity: (n-n1)/C + 1})
+		for q := n1; q < n; q++ {
+			rest.AppendSample(val(q))
+		}
+		w.Append(rest)
+		return root, w
 	}
 	if w == nil {
 		w = root.Slice(a, b)
